@@ -47,7 +47,7 @@ def judge(text, exploded, real, exc):
         return "rejected_valid", None
     want = ref if exploded else segs
     if _same(real, want):
-        return "ok", dict(nnum=len(tokens))
+        return "ok", dict(nnum=len(tokens), nrepeat=len(ref) != len(segs))
     mech = classify(text, real, tokens)
     return "violation", dict(
         rule="silent_misparse",
